@@ -17,12 +17,18 @@ C03 — line-protocol driver of the replace-protocol model (core only).
         skipped or ending the loop as the regenerated loop shape says; entry names carry their
         measurement (`o/<mst>/<file>`), the names inside a log too
 
+  plan level=<l> min=<n> files=<level>:<seq>:<ext>,…
+        → plans <i,i,…>;<i,i,…>;…
+        one pass of the level-compaction planner over the ordered files of a measurement (in
+        the order the shard keeps them); a plan is printed as the indexes of its files
+
 Entries are `o/<name>` (measurement directory) or `u/<name>` (out-of-order sub-directory);
 a name ending in the regenerated `.init` suffix is a temporary entry.  `files=` of a reorg line
 lists the data files before the reorganisation in the order the shard keeps them (ascending
 sequence): ordered files first, then out-of-order files.
 -/
 import OG.C03.Multi
+import OG.C03.Plan
 
 namespace OG.C03
 
@@ -121,6 +127,23 @@ def step (line : String) : String :=
           ++ " log=" ++ showLog d'.log
       | _, _ => "bad-op"
     | _, _ => "bad-op"
+  | "plan" :: rest =>
+    match (kvOf rest "level").bind (·.toNat?), (kvOf rest "min").bind (·.toNat?), kvOf rest "files" with
+    | some level, some minN, some files =>
+      let parsed := (splitList files).map fun t =>
+        match (t.splitOn ":").map (·.toNat?) with
+        | [some l, some sq, some e] => some (⟨l, sq, e⟩ : PF)
+        | _ => none
+      match parsed.mapM id with
+      | some fs =>
+        if !sortedPF fs then "bad-op"       -- the shard keeps them sorted, no two files share (sequence, extent)
+        else
+          -- indexes: the files are pairwise distinct (sorted strictly), so position = first match
+          let idxOf (f : PF) : Nat := (fs.findIdx? (· == f)).getD fs.length
+          "plans " ++ String.intercalate ";" ((mmsPlan level minN fs).map fun g =>
+            String.intercalate "," (g.map fun f => toString (idxOf f)))
+      | none => "bad-op"
+    | _, _, _ => "bad-op"
   | "mcrash" :: rest =>
     match kvOf rest "files", kvOf rest "logs" with
     | some files, some lgs =>
